@@ -27,6 +27,8 @@ const (
 	kBlock     // Policy.blockAccount(src)
 	kUnblock   // Policy.unblockAccount(src)
 	kDesignate // RoleManagement.designateAsRole(P2PNotary, nodes)
+	kArm       // Wallet(src).arm(dst): the next GAS reward paid to the Wallet makes it call NEO.transfer(self, dst, 1)
+	kDisarm    // Wallet(src).disarm()
 )
 
 type dataKind int
@@ -92,6 +94,10 @@ func (w *world) target(c *call) (util.Uint160, string, []any) {
 		return w.policyH, "blockAccount", []any{c.src}
 	case kUnblock:
 		return w.policyH, "unblockAccount", []any{c.src}
+	case kArm:
+		return c.src, "arm", []any{c.dst}
+	case kDisarm:
+		return c.src, "disarm", []any{}
 	case kDesignate:
 		nks := []any{}
 		for _, nk := range c.nodes {
@@ -128,6 +134,12 @@ func (w *world) dataArg(c *call) any {
 // emitCall appends the call to the entry script; it leaves exactly one item on the stack.
 func (w *world) emitCall(bw *io.BinWriter, c *call) {
 	h, m, args := w.target(c)
+	if c.kind == kArm || c.kind == kDisarm {
+		// not a native call: no model operation, its result is dropped
+		emit.AppCall(bw, h, m, callflag.All, args...)
+		emit.Opcodes(bw, opcode.DROP)
+		return
+	}
 	if c.via != nil {
 		emit.AppCall(bw, *c.via, "call", callflag.All, h, m, args)
 		return
@@ -238,7 +250,15 @@ func (w *world) opLines(c *call, caller util.Uint160, out *[]string) {
 		if c.pub != nil {
 			p = fmt.Sprint(w.pid(c.pub))
 		}
-		*out = append(*out, fmt.Sprintf("vote %d %s %s", w.aid(c.src), p, cl))
+		if c.nested != nil {
+			// the voter is an armed Wallet: the callback of the reward payment makes the nested call (the model runs
+			// it only if the vote gets as far as paying a reward)
+			*out = append(*out, fmt.Sprintf("vote %d %s %s cb", w.aid(c.src), p, cl))
+			w.opLines(c.nested, c.src, out)
+			*out = append(*out, "endcb")
+		} else {
+			*out = append(*out, fmt.Sprintf("vote %d %s %s", w.aid(c.src), p, cl))
+		}
 	case kRegister:
 		*out = append(*out, fmt.Sprintf("register %d %s", w.pid(c.pub), cl))
 	case kUnregister:
@@ -327,6 +347,10 @@ func (c *call) label(w *world) string {
 		return "unblockAccount"
 	case kDesignate:
 		return "designateAsRole"
+	case kArm:
+		return "arm"
+	case kDisarm:
+		return "disarm"
 	}
 	return "?"
 }
